@@ -79,7 +79,8 @@ prop("C01",
 
 prop("C07",
      specgen=(30, 300),
-     scripts=lambda tier, rnd: S.collision() + [x for x in S.gated() if "collision" in x["tags"]] +
+     scripts=lambda tier, rnd: S.collision() + [x for x in S.gated() if "collision" in x["tags"]] + S.pm_busy() +
+     [x for x in S.stop_dial_race(6 if tier == "thorough" else 3) if "-est-" in x["id"]] +
      (S.collision_racy(rnd, 60 if tier == "thorough" else 8)),
      mc=lambda tier: [mc_pair(["openLo", "ka"])] if tier == "quick" else
      [mc_pair(["openLo", "ka", "cease"], dials=2), mc_pair(["openHi", "ka", "cease"], dials=2),
@@ -202,7 +203,10 @@ prop("C20",
 
 prop("C05",
      pure=["big", "deframe", "prefix"],
-     scripts=lambda tier, rnd: S.fuzz(rnd, 400 if tier == "thorough" else 50) + S.message_grid(rnd, 300 if tier == "thorough" else 60) +
+     specgen=(30, 300),
+     scripts=lambda tier, rnd: S.pm_busy() + S.api_races() + sample(S.pacing(), rnd, 120 if tier == "thorough" else 25) +
+     sample(S.two_sessions(), rnd, 21 if tier == "thorough" else 6) + S.stop_dial_race(2) +
+     S.stop_everywhere(rnd, 200 if tier == "thorough" else 25) + S.fuzz(rnd, 400 if tier == "thorough" else 50) + S.message_grid(rnd, 300 if tier == "thorough" else 60) +
      S.notif_values(rnd, 120 if tier == "thorough" else 25) + (S.trailing() if tier == "thorough" else sample(S.trailing(), rnd, 60)),
      mc=lambda tier: [mc_pair(["openLo", "ka", "fault", "notif"], conns=2, msgs=2)],
      nontrivial=lambda s, r: True,
